@@ -15,7 +15,7 @@ R.field_types(
 
 R.invariant(
     "QuicStreamReceiver",
-    ["rs_nonempty_ranges(self._ranges)", "rs_sorted(self._ranges)", "rs_view_sound(self._ranges)", "rs_view_complete(self._ranges)"],
+    ["rs_nonempty_ranges(self._ranges)", "rs_sorted(self._ranges)", "rs_view_sound(self._ranges)", "rs_view_complete(self._ranges)", "self._buffer_start >= 0"],
 )
 
 # C07 / C10: a reset is refused exactly when it disagrees with an already fixed final size;
@@ -53,7 +53,7 @@ R.contract(
 # fixed final size; a FIN fixes the final size; highest_offset is the running maximum.
 R.contract(
     "QuicStreamReceiver.handle_frame",
-    requires=["frame.offset >= 0", "self._buffer_start >= 0"],
+    requires=["frame.offset >= 0"],
     let={"fend": "frame.offset + len(frame.data)"},
     raises={
         "FinalSizeError": "self._final_size is not None and (fend > self._final_size or (frame.fin and fend != self._final_size))"
@@ -185,4 +185,27 @@ R.contract(
         "implies(delivery != QuicDeliveryState.ACKED, self.reset_pending and self.is_finished == old(self.is_finished))",
     ],
     prop=["C10"],
+)
+
+
+# constructors establish the class invariants (visible-state semantics rests on this)
+R.contract(
+    "QuicStreamReceiver.__init__",
+    ensures=[
+        "self.highest_offset == 0 and not self.is_finished and not self.stop_pending",
+        "self._buffer_start == 0 and len(self._buffer) == 0 and self._final_size is None",
+        "len(RL(self._ranges)) == 0 and forall(lambda x: not self._ranges.gview[x])",
+    ],
+    prop=["C10", "C07"],
+)
+R.contract(
+    "QuicStreamSender.__init__",
+    ensures=[
+        "self.highest_offset == 0 and self.buffer_is_empty and self.is_finished == (not writable) and not self.reset_pending",
+        "self._buffer_start == 0 and self._buffer_stop == 0 and len(self._buffer) == 0 and self._buffer_fin is None",
+        "self._reset_error_code is None and not self._pending_eof and not self._acked_fin",
+        "len(RL(self._pending)) == 0 and forall(lambda x: not self._pending.gview[x])",
+        "len(RL(self._acked)) == 0 and forall(lambda x: not self._acked.gview[x])",
+    ],
+    prop=["C10", "C06"],
 )
